@@ -215,7 +215,25 @@ def pair(case, ctx):
     sel = ok1 & ok2 & np.isfinite(exp)
     tol = 1e-9 if case["method"] == "linear" else 1e-7
     sc = max(float(np.max(np.abs(exp[sel]))) if sel.any() else 0.0, cm_max(e1[sel]), cm_max(e2[sel]), 1e-300)
-    bad = sel & (np.abs(got - exp) > tol * sc)
+    # conditioning of the interpolation itself: a grid point's position is known to ~eps*|x|, which on a dense
+    # operand grid (spacing h) moves the interpolated value by eps*|x|/h times the local value step
+    def _pos_err(w, v):
+        h = float(np.min(np.diff(w)))
+        dv = float(np.max(np.abs(np.diff(v)))) if len(v) > 1 else 0.0
+        return (64 if case["method"] == "linear" else 512) * np.finfo(float).eps * float(np.max(np.abs(w))) / h * dv
+    d1, d2 = _pos_err(w1, case["v1"]), _pos_err(w2, case["v2"])
+    with np.errstate(all="ignore"):
+        a1, a2 = np.abs(e1), np.abs(e2)
+        if case["op"] in ("add", "subtract"):
+            prop = d1 + d2 + 0 * a1
+        elif case["op"] == "multiply":
+            prop = a2 * d1 + a1 * d2
+        elif case["op"] == "divide":
+            prop = d1 / a2 + a1 * d2 / a2 ** 2
+        else:
+            prop = np.abs(e2 * e1 ** (e2 - 1)) * d1 + np.abs(e1 ** e2 * np.log(e1)) * d2
+        prop = np.where(np.isfinite(prop), prop, np.inf)
+    bad = sel & (np.abs(got - exp) > tol * sc + prop)
     if bad.any():
         i = int(np.argmax(bad))
         raise Violation("C13.pair.value",
@@ -365,7 +383,7 @@ def apply_edit(s, st_):
         s.wave = np.asarray(s.wave) * (1.0 + 0.05 * st_["x"])
     elif e == "crop":
         w = np.asarray(s.wave)
-        if n >= 8:
+        if n >= 12:                # keeps at least 6 samples (cubic interpolation needs 4)
             s.crop(w[1 + int(st_["x"] * 2)], w[-2 - int(st_["y"] * 2)])
     elif e == "pad":
         if n < 400:
